@@ -15,6 +15,14 @@ From Coq Require Import NArith List Bool Arith.
 From FEC Require Import Generated.FEConsts Base.ListX Base.Bytes Base.Crc32 Base.Scan Base.FEFormat.
 Import ListNotations.
 
+(* len(l) < n, decided without walking more than n elements (equal to Nat.ltb (length l) n: PyDecoderP.shorter_ltb); the
+   extracted model evaluates this test once per scanned byte, on buffers of tens of kilobytes *)
+Fixpoint PyDecoder_shorter (l : list N) (n : nat) : bool :=
+  match n with
+  | O => false
+  | S k => match l with [] => true | _ :: t => PyDecoder_shorter t k end
+  end.
+
 Section PyDecoder.
   Context {P : Type}.
   Variable parse_payload : N -> list N -> option P.
@@ -31,7 +39,7 @@ Section PyDecoder.
      accepted set is that of min maxp maxe, but a header claiming a size in (maxe, maxp] is only rejected
      once that many bytes have arrived (this is what the code does: validate_crc runs after the wait). *)
   Definition PyDecoder_judge (l : list N) : verdict :=
-    if Nat.ltb (length l) HEADER_SIZE then More else
+    if PyDecoder_shorter l HEADER_SIZE then More else
     let h := parse_header (firstn HEADER_SIZE l) in
     if negb (N.eqb (h_sync0 h) SYNC0 && N.eqb (h_sync1 h) SYNC1) then Reject else
     if negb (N.eqb (h_reserved h) 0) then Reject else
@@ -113,7 +121,7 @@ Section PyDecoder.
   (* one iteration of `while self._buffer:` (the buffer is known to be non-empty) *)
   Definition PyDecoder_step (st : PyDecoder_state) : PyDecoder_step_res :=
     (* if len(self._buffer) < MessageHeader.calcsize(): break *)
-    if Nat.ltb (length (pd_buf st)) HEADER_SIZE then PdBreak st else
+    if PyDecoder_shorter (pd_buf st) HEADER_SIZE then PdBreak st else
     match pd_hdr st with
     | Some h => PyDecoder_complete st h
     | None =>
